@@ -83,6 +83,11 @@ E2E = {
     'vcf': lambda i: b'%s\t%d\t%s\tA\t%s\t.\t.\t.\n' % (_chr(i), 10 + i, [b'.', b'rs1234567890', b'r'][i % 3], [b'T', b'TGGGGGGGGGG', b'C'][i % 3]),
     'sam': lambda i: b'%s\t%d\t%s\t%d\t60\t4M\t*\t0\t0\tACGT\t!!!!%s\n' % (_nam(i), 16 * (i % 2), _chr(i), 5 + i, b'\tNM:i:0' if i % 2 else b''),
     'gtf': lambda i: b'%s\t%s\t%s\t%d\t%d\t.\t+\t.\tgene_id "g%d";\n' % (_chr(i), [b'src', b's'][i % 2], [b'gene', b'five_prime_UTR', b'CDS'][i % 3], 1 + 10 * i, 9 + 10 * i, i),
+    # numbers whose parsed value must not depend on what else shares the chunk: many-digit decimals (a running float
+    # total over the chunk loses the last place), coordinates of 10 and 11 digits around 2**31 and 2**32
+    'bdg_long': lambda i: b'chr1\t%d\t%d\t1.%015d\n' % (5 * i, 5 * i + 5, (i * 7919 * 10 ** 9 + 26544369955123) % 10 ** 15),
+    'bed_big': lambda i: b'c\t%d\t%d\n' % ([3000000000, 12000000000, 2147483648, 5, 9999999999, 4294967296][i % 6] + i,
+                                            [3000000000, 12000000000, 2147483648, 5, 9999999999, 4294967296][i % 6] + i + 10),
     'fq': lambda i: b'@%s\n%s\n+\n%s\n' % ([b'r%d', b'a_long_read_name_%d/1'][i % 2] % i, b'ACGTA'[:1 + i % 5], b'!!!!!'[:1 + i % 5]),
     'fa': lambda i: b'>%s\n' % ([b's%d', b'sequence_with_long_name_%d'][i % 2] % i) + b''.join(b'ACGTACGTACG'[:2 + 3 * (i % 4)][j:j + 4] + b'\n' for j in range(0, 2 + 3 * (i % 4), 4)),
 }
@@ -181,7 +186,7 @@ def observe(case):
     # end to end
     d = tempfile.mkdtemp(prefix='c01_')
     try:
-        path = os.path.join(d, 'f.' + case['fmt'] + ('.gz' if case['gz'] else ''))
+        path = os.path.join(d, 'f.' + {'bdg_long': 'bdg', 'bed_big': 'bed'}.get(case['fmt'], case['fmt']) + ('.gz' if case['gz'] else ''))
         body = E2E_HEADER.get(case['fmt'], b'') + bytes.fromhex(case['body'])
         with (gzip.open(path, 'wb') if case['gz'] else open(path, 'wb')) as f:
             f.write(body)
